@@ -244,12 +244,6 @@ Fixpoint rd_words (n : nat) (nbits : nat) (s : bytes) : option (bits * bytes) :=
                             end
            end
   end.
-Fixpoint bytes_eqb (a b : bytes) : bool :=
-  match a, b with
-  | [], [] => true
-  | x :: a', y :: b' => N.eqb x y && bytes_eqb a' b'
-  | _, _ => false
-  end.
 Definition bitvec_from_bincode (s : bytes) : option (bits * bytes) :=
   match rd_u64 s with
   | None => None
